@@ -109,6 +109,11 @@ type Case struct {
 	Res   map[string]bool     `json:"res,omitempty"`
 	Ints  map[string]*int64   `json:"ints,omitempty"`
 	Match map[string][]string `json:"match,omitempty"`
+	// err.Error() of regexp.Compile / time.ParseDuration for the operands they refuse (embedded in
+	// the error texts), and the texts Check returned
+	ReErr  map[string]string `json:"re_err,omitempty"`
+	DurErr map[string]string `json:"dur_err,omitempty"`
+	Texts  []string          `json:"texts,omitempty"`
 }
 
 func project(it interface{}) Item {
@@ -164,6 +169,7 @@ func firstLine(s string) string {
 func (c *Case) record(line string) {
 	if c.Durs == nil {
 		c.Durs, c.Res, c.Ints = map[string]*int64{}, map[string]bool{}, map[string]*int64{}
+		c.ReErr, c.DurErr = map[string]string{}, map[string]string{}
 	}
 	dur := func(s string) {
 		if _, ok := c.Durs[s]; ok {
@@ -174,6 +180,7 @@ func (c *Case) record(line string) {
 			c.Durs[s] = &v
 		} else {
 			c.Durs[s] = nil
+			c.DurErr[s] = err.Error()
 		}
 		if n, err := strconv.Atoi(s); err == nil {
 			v := int64(n)
@@ -188,6 +195,9 @@ func (c *Case) record(line string) {
 		}
 		_, err := regexp.Compile(s)
 		c.Res[s] = err == nil
+		if err != nil {
+			c.ReErr[s] = err.Error()
+		}
 	}
 	dur("")
 	for i := 0; i < len(line); {
@@ -362,6 +372,7 @@ func runText(c *Case) (errs []string, note string) {
 	}
 	var cerr error
 	errs, cerr = file.Check(got)
+	c.Texts = append([]string{}, errs...)
 	c.NErr = len(errs)
 	c.Failed = cerr != nil
 	return errs, note
@@ -692,6 +703,26 @@ func coqStr(s string) string {
 	return "(text_of " + coqChunks(rle(s)) + ")"
 }
 
+func strTab(m map[string]string) string {
+	var xs []string
+	for _, k := range sortedKeys(len(m), func(f func(string)) {
+		for k := range m {
+			f(k)
+		}
+	}) {
+		xs = append(xs, lib.Tuple(coqStr(k), coqStr(m[k])))
+	}
+	return lib.List(xs)
+}
+
+func longStrList(xs []string) string {
+	ys := make([]string, len(xs))
+	for i, x := range xs {
+		ys[i] = coqStr(x)
+	}
+	return lib.List(ys)
+}
+
 func strList(xs []string) string {
 	ys := make([]string, len(xs))
 	for i, x := range xs {
@@ -707,14 +738,15 @@ func (c *Case) coq() string {
 		return lib.App("CParse", d, r, n, lib.Str(c.Line), c.Obs.coq())
 	case "text":
 		if c.OracleOnly {
-			return "(CText [] [] [] [] [] 0%N false false)"
+			return "(CText [] [] [] [] [] 0%N false false [] [] [])"
 		}
 		d, r, n := c.tables()
 		its := make([]string, len(c.ObsL))
 		for i, it := range c.ObsL {
 			its[i] = it.coq()
 		}
-		return lib.App("CText", d, r, n, coqChunks(rle(textOf(c.Text))), lib.List(its), lib.N(uint64(c.NErr)), lib.Bool(c.Failed), lib.Bool(c.TooLong))
+		return lib.App("CText", d, r, n, coqChunks(rle(textOf(c.Text))), lib.List(its), lib.N(uint64(c.NErr)), lib.Bool(c.Failed), lib.Bool(c.TooLong),
+			strTab(c.ReErr), strTab(c.DurErr), longStrList(c.Texts))
 	}
 	var mt, evs []string
 	for _, k := range sortedKeys(len(c.Match), func(f func(string)) {
